@@ -337,7 +337,10 @@ BigDeltaCases ==
    [n |-> 1023, ints |-> 14334, add |-> (<<7, 0>> :> <<1>>)],
    [n |-> 1023, ints |-> 14334, add |-> (<<7, 0>> :> <<1, 2, 3>>)],
    [n |-> 1, ints |-> 16379, add |-> (<<65535, 65535>> :> <<>>)],
-   [n |-> 1, ints |-> 16376, add |-> (<<65535, 65535>> :> <<1, 2>>)]}
+   [n |-> 1, ints |-> 16376, add |-> (<<65535, 65535>> :> <<1, 2>>)],
+   \* updates of items kept from the old snapshot at the limits: accepted
+   [n |-> 1024, ints |-> 1024, add |-> (<<6, 0>> :> <<7>>)],
+   [n |-> 1, ints |-> 16380, add |-> (<<6, 0>> :> [j \in 1..16380 |-> 1])]}
 InitBigDelta ==
   \E x \in BigDeltaCases :
     LET A == BigSnap(6, x.n, x.ints)
@@ -349,6 +352,38 @@ InitBigPair ==
     LET A == BigSnap(6, x.n, x.ints)
         B == [k \in DOMAIN A |-> [j \in 1..Len(A[k]) |-> IF j % 2 = 0 THEN WrapAdd(A[k][j], MAX) ELSE A[k][j]]]
     IN c = [op |-> "pair", A |-> ItemsOf(A), B |-> ItemsOf(B), osz |-> <<>>]
+\* ---- pairs at the limits (C09): fill levels around both limits x {no-op, update of a kept item, addition
+\* that reaches the limit, delete + add}; a target beyond the limits cannot be built, it becomes the
+\* one-over case: the delta is applied to A as received from the wire and must be refused
+ItemsSnap(n) == [k \in {<<6, id>> : id \in 0..(n - 1)} |-> <<k[2]>>]              \* n items of one integer
+\* one big item and one small item, r bytes of room: 4 * (2 + 2 * 2 + K + 1) = 65536 - r
+SizeSnap(r) == (<<6, 0>> :> [j \in 1..((65508 - r) \div 4) |-> j]) @@ (<<6, 1>> :> <<5>>)
+LimOp(A, op) ==
+  CASE op = "noop" -> A
+    [] op = "upd" -> [A EXCEPT ![<<6, 1>>] = <<MIN>>]                               \* a kept item changes
+    [] op = "updbig" -> [A EXCEPT ![<<6, 0>>] = [j \in 1..Len(@) |-> WrapAdd(@[j], MAX)]]
+    [] op = "add0" -> (<<7, 0>> :> <<>>) @@ A
+    [] op = "add1" -> (<<65535, 65535>> :> <<1>>) @@ A
+    [] op = "deladd" -> (<<7, 0>> :> <<9>>) @@ [k \in DOMAIN A \ {<<6, 1>>} |-> A[k]]
+    [] op = "deladd2" -> (<<7, 0>> :> <<9, 9>>) @@ [k \in DOMAIN A \ {<<6, 1>>} |-> A[k]]
+LimPairCase(A, B) ==
+  IF WithinLimits(B) THEN [op |-> "pair", A |-> ItemsOf(A), B |-> ItemsOf(B), osz |-> <<>>]
+  ELSE [op |-> "parse", kind |-> "di", w |-> DeltaWire(Delta(A, B), OszNone), adds2 |-> <<>>, base |-> WireInts(A), osz |-> <<>>]
+InitPairLimitQuick ==
+  \/ \E op \in {"upd", "deladd", "add0"} : c = LimPairCase(ItemsSnap(1024), LimOp(ItemsSnap(1024), op))
+  \/ c = LimPairCase(ItemsSnap(1023), LimOp(ItemsSnap(1023), "add1"))
+  \/ \E op \in {"upd", "add1", "deladd"} : c = LimPairCase(SizeSnap(0), LimOp(SizeSnap(0), op))
+  \/ \E op \in {"upd", "add1"} : c = LimPairCase(SizeSnap(12), LimOp(SizeSnap(12), op))
+InitPairLimitThorough ==
+  \/ \E n \in {1022, 1023, 1024}, op \in {"noop", "upd", "add0", "add1", "deladd"} : c = LimPairCase(ItemsSnap(n), LimOp(ItemsSnap(n), op))
+  \/ \E r \in {0, 4, 8, 12, 16, 20, 24}, op \in {"noop", "upd", "updbig", "add0", "add1", "deladd", "deladd2"} :
+        c = LimPairCase(SizeSnap(r), LimOp(SizeSnap(r), op))
+PairLimitLaw ==
+  IF c.op = "pair" THEN DeltaLaw /\ DeltaWireLaw
+  ELSE LET p == ParseDelta(c.w, FALSE, OszNone) IN
+       /\ p.ok /\ p.warn = {}
+       /\ LET ap == Apply(ParseInts(c.base).s, p.d) IN ~ap.ok /\ ap.e \in {"TooManyItems", "TooLongSnap"}
+
 BigLaw == IF c.op = "pair" THEN DeltaLaw /\ DeltaWireLaw
           ELSE IF c.kind \in {"si", "sb"} THEN TotalSnapLaw ELSE TotalDeltaLaw
 =============================================================================
